@@ -14,6 +14,32 @@ from ..facts import op_place
 DELEGATES = ("size_hint", "len", "min", "untrusted_size_hint", "saturating_sub", "count")
 
 
+def _counted_payload(prog, o):
+    """the origin is a payload position of an enum variant of `self` (`(self.imp as Chars).1`) and every aggregate of that
+    variant in the program stores the `count()` / `len()` of data there: the number is backed by memory"""
+    if o.kind != "arg" or not o.proj:
+        return False
+    var = [x[3:] for x in o.proj if x.startswith("as ")]
+    idx = [x for x in o.proj if x.isdigit()]
+    if len(var) != 1 or not idx:
+        return False
+    sites = 0
+    for g in prog.fns.values():
+        if g.crate not in ("minijinja", "minijinja_contrib"):
+            continue
+        for bb, i, st in g.all_stmts():
+            rv = st.get("rv")
+            if rv and rv["k"] == "agg" and rv.get("agg") == "adt" and rv.get("variant") == var[0] and int(idx[-1]) < len(rv["ops"]):
+                op = rv["ops"][int(idx[-1])]
+                sites += 1
+                if "c" in op:
+                    continue
+                os_ = flow.origins(g, op)
+                if not os_ or not all(q.kind == "call" and q.call.name.split("::")[-1] in ("count", "len") for q in os_):
+                    return False
+    return sites > 0
+
+
 def check_size_hints(ctx, prog, tag=""):
     n = 0
     for k, f in sorted(prog.fns.items()):
@@ -31,6 +57,8 @@ def check_size_hints(ctx, prog, tag=""):
                 srcs = flow.origins(f, low)
                 if srcs and all((s.kind == "call" and s.call.name.split("::")[-1] in DELEGATES) or s.kind == "const" for s in srcs):
                     continue
+                if srcs and all(_counted_payload(prog, s) for s in srcs):
+                    continue            # the payload of an enum variant that every construction site fills with a count of data it holds
                 bad += [repr(s)[:80] for s in srcs if not (s.kind == "call" or s.kind == "const")] or ["?"]
                 continue
             bad.append(repr(o)[:80])
